@@ -111,7 +111,7 @@ fn plan_c18(tier: Tier) -> (Plan, Extra) {
     let g = c18::grid_len(tier);
     let plan = match tier {
         Tier::Quick => Plan { runs: g + 100, budget_s: 200.0, selftest_runs: 12, workers },
-        Tier::Thorough => Plan { runs: g + 1500, budget_s: 3000.0, selftest_runs: 40, workers },
+        Tier::Thorough => Plan { runs: g + 15000, budget_s: 3000.0, selftest_runs: 40, workers },
     };
     let mut coverage = Map::new();
     coverage.insert("components".into(), json!({
